@@ -227,7 +227,7 @@ class Exec(StmtMixin, CallMixin):
             if r is not NotImplemented:
                 return r
             raise Unsupported("attribute %s.%s (line %d)" % (base.name, a, n.lineno))
-        if isinstance(base, (SList, list, dict, str, tuple)):
+        if isinstance(base, (SList, list, dict, str, tuple)) or type(base).__name__ == "_Map":
             return SFunc(name="builtin." + a, handler=("method", base))
         if isinstance(base, SFunc) and base.target and not base.handler:
             return SFunc(target=base.target + "." + a, name=(base.name or base.target) + "." + a)   # Class.static_method
